@@ -486,6 +486,62 @@ def controls_sites(db, rep):
             'with the control files %s the daemon starts with %s' % ({k.split('/')[1]: v.decode() for k, v in F.items()}, {k: (g, 'documented %r' % w) for k, (g, w) in bad.items()}) if bad else 'bouncefrom, bouncehost, doublebounceto@doublebouncehost', tr if bad else [])}
 
 
+def control_value_sites(db, rep):
+    """getcontrols() with the numeric control files holding 0, holding 5, and absent; and which list files fall back to control/me:
+    a value is taken as written (0 is a value: a channel on hold, a queue lifetime of nothing), an absent file leaves the compiled-in
+    default, and only locals defaults to me (percenthack and virtualdomains default to none)"""
+    from qv.lib import lit_of
+    prog = db.program('qmail-send')
+    gc = prog.fn('getcontrols', 'qmail-send.c')
+    bad = {}
+    lists = {}
+    for scen, val in (('holding 0', 0), ('holding 5', 5), ('absent', None)):
+        ints = {}
+
+        class CV(ControlsHooks):
+            def prim_control_readint(self, E, x, args):
+                v1 = libtab._one(args[1])
+                fnm = v1[1] if isinstance(v1, tuple) and v1[0] == 'str' else lit_of(E, x.args[1])
+                p_ = libtab._one(args[0])
+                ints[fnm] = p_[1] if isinstance(p_, tuple) else None
+                if val is None or not isinstance(p_, tuple):
+                    return [Outcome(ret=fs(0))]
+                return [Outcome(ret=fs(1), sets={p_[1]: fs(val)})]
+
+            def prim_control_readfile(self, E, x, args):
+                v1 = libtab._one(args[1])
+                fnm = v1[1] if isinstance(v1, tuple) and v1[0] == 'str' else lit_of(E, x.args[1])
+                lists[fnm] = libtab._one(args[2])
+                return ControlsHooks.prim_control_readfile(self, E, x, args)
+
+            def on_return(self, E, fn, val_):
+                if fn.name == 'getcontrols':
+                    self.ends.append((libtab._one(val_), dict(E.store), E.trace.list()))
+        H = CV()
+        e = Engine(db, prog, H, max_states=60000)
+        e.run(gc, {'G:lifetime': fs(777), 'G:concurrency[0]': fs(7), 'G:concurrency[1]': fs(8)})
+        rep.count_states(e.states, e.transitions)
+        if len(H.ends) != 1 or H.ends[0][0] != 1:
+            raise AnalysisBroken('getcontrols: %d ends with the numeric control files %s' % (len(H.ends), scen))
+        st, tr = H.ends[0][1], H.ends[0][2]
+        for fnm, key, cell, dflt in (('control/queuelifetime', 'controls:queuelifetime-is-taken-as-written(0-included)', 'G:lifetime', 777),
+                                     ('control/concurrencylocal', 'controls:concurrency-is-taken-as-written(0-holds-the-channel)', 'G:concurrency[0]', 7),
+                                     ('control/concurrencyremote', 'controls:concurrency-is-taken-as-written(0-holds-the-channel)', 'G:concurrency[1]', 8)):
+            if fnm not in ints:
+                raise AnalysisBroken('getcontrols does not read %s' % fnm)
+            got = libtab._one(st.get(cell))
+            want = dflt if val is None else val
+            if got != want:
+                bad.setdefault(key, ('%s %s: the daemon runs with %s = %s; documented: %s' % (fnm, scen, cell[2:], got, 'the compiled-in default stays' if val is None else 'the value %d as written' % val), tr))
+    wantl = {'control/locals': 1, 'control/percenthack': 0, 'control/virtualdomains': 0}
+    if {k: lists.get(k) for k in wantl} != wantl:
+        bad['controls:only-locals-defaults-to-me'] = ('fall-back to control/me when the file is missing: %s; documented (qmail-send(8)): locals defaults to me, percenthack and virtualdomains to none' % {k.split('/')[1]: lists.get(k) for k in wantl}, [])
+    out = {}
+    for k in ('controls:queuelifetime-is-taken-as-written(0-included)', 'controls:concurrency-is-taken-as-written(0-holds-the-channel)', 'controls:only-locals-defaults-to-me'):
+        out[k] = (k not in bad, 'qmail-send.c:getcontrols', bad[k][0] if k in bad else 'numeric files holding 0, holding 5 and absent; three list files', bad[k][1] if k in bad else [])
+    return out
+
+
 def run(ctx):
     db, rep = ctx.db, ctx.report
     prog = db.program('qmail-send')
@@ -539,7 +595,9 @@ def run(ctx):
     for inst, v in sorted(ls_.items()):
         if inst.startswith('qmail_from:') or inst.startswith('qmail_fail:'):
             r2.check(v[0], 'latch:' + inst, v[1], v[2], v[3])
-    r2.expect_min(5)
+    for inst, v in sorted(qsend.id_width_sites(db).items()):
+        r2.check(v[0], inst, v[1], v[2], v[3])      # bounce/<id> of one message must not be bounce/<id mod 2^32> of another
+    r2.expect_min(6)
 
     r5 = rep.rule('C14.5-recipient-named-without-the-virtual-prefix', 'R-TABLE', 'stripvdomprepend() over 12 recipients and five kinds of virtualdomains entries: the prefix the routing rule prepended is removed, nothing is removed from addresses the rule did not touch (exception entries end the search), and no byte beyond the recipient is read')
     for inst, v in sorted(strip_sites(db, rep, prog).items()):
